@@ -42,7 +42,3 @@ func rewriteImports(src, dst string, repl map[string][2]string, ov map[string]st
 	ov[src] = dst
 	return nil
 }
-
-func rewriteSched(repo, out string, race bool, ov map[string]string) error {
-	return fmt.Errorf("sched mode not built yet")
-}
